@@ -33,7 +33,7 @@ class Noh2Cog(Cog1):
         self.temp0 = self.e0*((self.gamma - 1)/self.Gamma)
 
     def _run(self, r, t):
-        if t>1:
+        if t>=1:
             raise ValueError("The time t must be less than 1")
         tau = 1.0 - t
         soln = super(Noh2Cog, self)._run(r, tau)
